@@ -90,8 +90,22 @@ class PanicSites:
         Discharged iff it is discharged in every such context."""
         from . import inline
         b = s["body"]
-        if hasattr(b, "base") or not (inline.default_policy(self.f, b, b) or b.kind == "Closure"):
+        if hasattr(b, "base"):
             return None
+        if not (inline.default_policy(self.f, b, b) or b.kind == "Closure") or not self.f.callers_of(b.path):
+            # a public / trait-role function: judged once more in its own normalised view, where the origin of the operand is followed
+            # through the private helpers it calls (the guard or the table row may speak about what such a helper returns)
+            v = self.f.view(b)
+            if not getattr(v, "inlined", None) or s["bb"] >= len(b.blocks):
+                return None
+            s2 = dict(s, body=v, bb=s["bb"], term=v.blocks[s["bb"]]["term"])
+            if s2["term"] is None or s2["term"].get("k") not in ("call", "assert"):
+                return None
+            r = self.discharge_local(s2)
+            if not r:
+                row = table_row(s2, site_atoms(self.f, s2), self.f)
+                r = row[0] if row else None
+            return ("in the function's normalised view: " + str(r)[:100]) if r else None
         copies = self._root_index().get((b.path, s["bb"]), [])
         if not copies:
             return None
